@@ -199,8 +199,8 @@ impl Scenario for H1 {
 
     fn budget(&self, tier: Tier) -> u64 {
         match tier {
-            Tier::Quick => 20_000,
-            Tier::Thorough => 2_000_000,
+            Tier::Quick => 100_000,
+            Tier::Thorough => 6_000_000,
         }
     }
 
